@@ -495,6 +495,7 @@ Out(x) ==
 
 Names4 == <<"a", "b", "c", "d">>
 Names3 == <<"a", "b", "c">>
+Names2 == <<"a", "b">>
 GenNames == <<"x", "a", "y">>     \* in generator shells: x, y are the loop variables
 
 C(v)  == <<"Const", v>>
@@ -587,11 +588,13 @@ Alphabets == [
     cond   |-> [un |-> <<"Not">>, bin |-> <<"And", "Or">>, ter |-> <<"IfExp">>, consts |-> <<>>, names |-> Names3],
     \* generator shells (x, y: loop variables)
     gen    |-> [un |-> <<"Not">>, bin |-> <<"And", "Or", "Eq">>, ter |-> <<"IfExp">>, consts |-> <<>>, names |-> GenNames],
+    gencond |-> [un |-> <<"Not">>, bin |-> <<"And", "Or">>, ter |-> <<"IfExp">>, consts |-> <<>>, names |-> GenNames],
     \* one binary operator of every precedence level, unary operators, conditional expression (C04 thorough, depth 3)
     prec   |-> [un |-> <<"Not", "USub">>, bin |-> <<"Or", "And", "Lt", "BitOr", "BitXor", "BitAnd", "LShift", "Sub", "FloorDiv", "Pow">>,
                 ter |-> <<"IfExp">>, consts |-> <<>>, names |-> Names3],
     \* every operator kind
     wide   |-> [un |-> Un1All, bin |-> Bin2All, ter |-> Ter3All, consts |-> <<>>, names |-> Names3],
+    wide2  |-> [un |-> Un1All, bin |-> Bin2All, ter |-> Ter3All, consts |-> <<>>, names |-> Names2],
     widec  |-> [un |-> Un1All, bin |-> Bin2All, ter |-> Ter3All, consts |-> <<C(I(2)), C(Str2("a", "b")), C(None)>>, names |-> Names3]
 ]
 
